@@ -167,3 +167,7 @@ Definition disciplined (ops : list top) : bool := disciplined_from s_init ops.
 (* the answers a reader was handed, oldest first: (request, answer) *)
 Definition s_answers (r : nat) (st : sstate) : list (nat * pkt) :=
   flat_map (fun x : nat * nat * pkt => if Nat.eqb (fst (fst x)) r then [(snd (fst x), snd x)] else []) (s_out st).
+
+(* the node is closed: every unanswered request is answered with a dropped-packet error, nothing is kept *)
+Definition s_close (st : sstate) : sstate :=
+  mks [] [] [] [] [] [] [] (s_used st) (s_pay st) (s_out st ++ map (fun e : nat * nat => (snd e, fst e, dropped)) (s_reader st)).
